@@ -6,13 +6,20 @@ import (
 	"compress/gzip"
 	"context"
 	"fmt"
-	"google.golang.org/grpc"
 	"io"
+	"net"
 	"net/http"
+	"net/http/httptest"
 	"net/url"
 	"os"
 	"strings"
+	"sync"
 	"testing"
+	"time"
+
+	"github.com/gobwas/ws"
+	"github.com/gobwas/ws/wsutil"
+	"google.golang.org/grpc"
 
 	"google.golang.org/genproto/googleapis/api/annotations"
 	"google.golang.org/protobuf/encoding/protojson"
@@ -47,6 +54,7 @@ type Neg struct {
 
 // Case is a fully split request plus the message it was split from.
 type Case struct {
+	WS          bool     `json:"ws"`     // the rule is a WebSocket binding (custom kind "websocket"): path and query travel in the handshake URL, the JSON body as the first text frame
 	Stream      bool     `json:"stream"` // the method is client-streaming: the body is a stream whose first (only) message is M's body part
 	Later       bool     `json:"later"`  // another service is registered on the mux after the one under test
 	Verb        string   `json:"verb"`
@@ -68,6 +76,10 @@ type Case struct {
 
 func httpRule(c Case) *annotations.HttpRule {
 	r := &annotations.HttpRule{Body: c.BodySel}
+	if c.WS {
+		r.Pattern = &annotations.HttpRule_Custom{Custom: &annotations.CustomHttpPattern{Kind: "websocket", Path: c.Tmpl}}
+		return r
+	}
 	switch c.Verb {
 	case "GET":
 		r.Pattern = &annotations.HttpRule_Get{Get: c.Tmpl}
@@ -99,7 +111,10 @@ func Check(c Case) (vs []evid.Violation, delivered bool) {
 	svc := dyn.Svc("C3", dyn.MethodSpec{Name: "Do", In: ".un.All", Out: ".un.All", Rule: httpRule(c), ClientStream: c.Stream})
 	w := uni.WorldWith(svc, dyn.Svc("C3Later", dyn.MethodSpec{Name: "Other", In: ".un.All", Out: ".un.All"}))
 	var got []proto.Message
+	var gotMu sync.Mutex
 	sd := w.ServiceDesc("un.C3", func(ctx context.Context, fm string, req *dynamicpb.Message) (proto.Message, error) {
+		gotMu.Lock()
+		defer gotMu.Unlock()
 		got = append(got, proto.Clone(req))
 		return dynamicpb.NewMessage(req.Descriptor()), nil
 	}, func(full string, in, out protoreflect.MessageDescriptor, ss grpc.ServerStream) error {
@@ -152,7 +167,18 @@ func Check(c Case) (vs []evid.Violation, delivered bool) {
 	} else {
 		req = drive.Request(c.Verb, c.Path, c.RawQuery, hdr, nil, 0)
 	}
-	res := drive.Serve(mux, req)
+	var res drive.Result
+	if c.WS {
+		res.Rec = httptest.NewRecorder()
+		res.Rec.Code = 0
+		if problem := wsExchange(mux, c); problem != "" {
+			return []evid.Violation{evid.V("ws", "ws-exchange", "websocket %s?%s: %s", c.Path, c.RawQuery, problem)}, false
+		}
+		gotMu.Lock()
+		defer gotMu.Unlock()
+	} else {
+		res = drive.Serve(mux, req)
+	}
 	if res.Panic != nil {
 		return []evid.Violation{evid.V("panic", res.PanicSig(), "panic: %v\n%s", res.Panic, res.Stack)}, false
 	}
@@ -205,6 +231,47 @@ func Check(c Case) (vs []evid.Violation, delivered bool) {
 			"text %q for %s delivered as %v; protojson reads it as %v; got {%v}", c.Neg.Text, c.Neg.Field, gv, readings, got[0])}, true
 	}
 	return nil, true
+}
+
+// wsExchange dials the rule over a real connection, sends the body (if the rule maps one) as one text
+// frame, and waits for the server's close frame. It reports only what keeps the harness from talking to
+// the server; whether the message was delivered is read from the handler afterwards.
+func wsExchange(mux http.Handler, c Case) string {
+	mem := drive.Mem()
+	mem.Use(mux)
+	u := "ws://c03.test" + (&url.URL{Path: c.Path}).EscapedPath()
+	if c.RawQuery != "" {
+		u += "?" + c.RawQuery
+	}
+	ctx, cancel := context.WithTimeout(context.Background(), 10*time.Second)
+	defer cancel()
+	conn, br, _, err := ws.Dialer{NetDial: mem.Dial}.Dial(ctx, u)
+	if err != nil {
+		return "" // refused at the handshake: nothing was delivered
+	}
+	defer conn.Close()
+	conn.SetDeadline(time.Now().Add(10 * time.Second))
+	var rd io.Reader = conn
+	if br != nil {
+		rd = br
+	}
+	if len(c.Body) > 0 {
+		if wsutil.WriteClientMessage(conn, ws.OpText, c.Body) != nil {
+			return ""
+		}
+	}
+	for {
+		f, err := ws.ReadFrame(rd)
+		if err != nil {
+			if ne, ok := err.(net.Error); ok && ne.Timeout() {
+				return "no close frame within 10 s"
+			}
+			return ""
+		}
+		if f.Header.OpCode == ws.OpClose {
+			return ""
+		}
+	}
 }
 
 func trunc(b []byte) []byte {
@@ -632,6 +699,15 @@ func genCase(t *rapid.T) Case {
 			}
 			c.EOFWithLast = rapid.Bool().Draw(t, "eofWithLast")
 		}
+	}
+	if !c.Stream && !c.Gzip && (len(c.Body) == 0 || c.ContentType == "application/json" || c.ContentType == "") && rapid.IntRange(0, 39).Draw(t, "ws") == 0 {
+		// the same rule as a WebSocket binding: the URL part travels in the handshake, the body as a JSON text frame
+		c.WS = true
+		c.Chunks, c.EOFWithLast = nil, false
+		if c.BodySel != "" && len(c.Body) == 0 {
+			c.Body = []byte("{}") // a binding with a body waits for its first frame
+		}
+		c.Classes = append(c.Classes, "websocket-binding")
 	}
 	c.Later = rapid.IntRange(0, 3).Draw(t, "later") == 0
 	if c.Later {
